@@ -1,6 +1,7 @@
 (* Props_C06.v — C06: the server answers every live want once the block is available. *)
 From BS Require Import Bytes Cid Prefix Proto Types Server Server_lemmas Server_inv Server_proofs Server_live Tie_consts.
 From BS Require Import Tie_server.   (* tie lemmas: a source edit that changes what they extract breaks this file's closure *)
+From BS Require Import Tie_srvhandler.  (* ServerHandler.sh_iter IS the interpretation of the extracted arms of ServerConnectionHandler::poll_outgoing *)
 Open Scope N_scope.
 
 (* p wants c (reference view) at the cut after ops1; during ops2 the block becomes available — it is
@@ -151,3 +152,15 @@ Print Assumptions process_wrong_block.
 Print Assumptions wire_receive_blocks.
 Print Assumptions C06_wire_blocks_delivered.
 Print Assumptions C06_wire_blocks_exactly_once.
+
+(* ---- the connection handler between the behaviour and the wire (ServerHandler.v = server.rs ServerConnectionHandler): a block the
+   behaviour handed over (QueueOutgoingMessages — the want is already off its books) is never dropped or overtaken by the handler:
+   for ANY history of queue / set_stream / poll with ANY stream behaviour, what was started followed by what is still pending is
+   exactly what was queued, in order (the conjunct of C09_outbound_split that C06 relies on). *)
+Theorem C06_handler_blocks_not_lost :
+  forall (encode : message -> bytes) (block_size : blk -> N) (ops : list shop),
+  let st := server_handler_final encode block_size ops in
+  concat (map snd (sh_started st)) ++ pending_list st = queued_of ops.
+Proof. exact (fun encode block_size ops => proj1 (proj2 (@ServerHandler_proofs.C09_outbound_split encode block_size ops))). Qed.
+
+Print Assumptions C06_handler_blocks_not_lost.
